@@ -101,3 +101,20 @@ package transport
 //@   ensures implies(tclosed(recv), result1 != nil && result0 == 0)
 //@ assume iface Transport.Flush
 //@ assume iface Transport.RawTransport
+
+// C13 (bootstrap): acceptors and option parsing
+//@ property C13
+// ASSUMED: factories and acceptors do not touch the framework's own objects
+//@ assume iface Acceptor.Accept
+//@   ensures_assumed iff(result1 == nil, result0 != nil)
+//@ assume iface Acceptor.Close
+//@ assume iface Factory.Listen
+//@   ensures_assumed iff(result1 == nil, result0 != nil)
+//@ assume iface Factory.Connect
+//@   ensures_assumed iff(result1 == nil, result0 != nil)
+// ASSUMED: transport options derive their context from the one they are given (context.WithValue,
+// as tcp.WithOptions does); WithContext with a foreign context is outside the C13 statement.
+//@ assume func ParseOptions
+//@   event
+//@   modifies Options.*
+//@   ensures_assumed implies(result1 == nil, result0 != nil && result0.Context != nil && ctxdone(result0.Context) == ctxdone(ctx))
